@@ -6,7 +6,7 @@ PROP_FILE = 'C05'
 
 
 def mons():
-    return [M.m_terminates, M.m_multipart_discipline]
+    return [M.m_terminates, M.m_multipart_discipline, M.m_success_means_all_ok]
 
 
 def specs(ctx):
@@ -14,6 +14,8 @@ def specs(ctx):
     s = sysrun.specs_faults(ctx, kinds, seeds=3 if ctx.thorough() else 2)
     pts = list(range(0, 130, 3 if ctx.thorough() else 9))
     s += sysrun.specs_cancel(ctx, kinds, ['future'], pts)
+    s += sysrun.specs_early_cancel(ctx, kinds[:3], seeds=2 if not ctx.thorough() else 5)
+    s += sysrun.specs_nonthreaded_interrupt(ctx, kinds)
     s += sysrun.specs_cancel(ctx, kinds[:3], ['shutdown', 'exit_exc', 'result_kbi'], pts[::3])
     for c in (1, 3):
         cfg = dict(sysrun.CFG_SMALL, max_request_concurrency=c)
